@@ -88,7 +88,7 @@ Predict(mode) ==
       keep == [ck |-> ck, mk |-> mk]
       out(r, x, st) == [ran |-> r, exit |-> x, ck |-> st.ck, mk |-> st.mk]
   IN
-  CASE mode \in {"list", "summary", "drydir"} -> out(<<>>, 0, keep)
+  CASE mode \in {"list", "summary", "drydir", "dryforce"} -> out(<<>>, 0, keep)   \* dryforce: --dry --force prints, runs and records nothing
     [] mode = "dry"      -> out(<<>>, 0, keep)
     [] mode = "dryfailpre" -> out(<<>>, IF UpToDate("t", FALSE).up THEN 0 ELSE 201, keep)   \* --dry while the precondition of a called task fails
     [] mode = "status"   -> out(<<>>, IF UpToDate("t", FALSE).up THEN 0 ELSE 1, keep)
@@ -119,7 +119,7 @@ Predict(mode) ==
                 [] b.how = "fail" -> out(b.ran, b.exit, AfterFailure(task, st))
                 [] b.how = "kill" -> out(b.ran, b.exit, st)
 
-Modes == {"run", "other", "fail1", "fail2", "failpre", "depfail1", "forcefail1", "cancelsib", "kill1", "kill2", "prompt", "force", "dry", "status", "list", "listjson", "summary", "drydir", "dryfailpre"}
+Modes == {"run", "other", "fail1", "fail2", "failpre", "depfail1", "forcefail1", "cancelsib", "kill1", "kill2", "prompt", "force", "dry", "status", "list", "listjson", "summary", "drydir", "dryfailpre", "dryforce"}
 
 \* an invocation as the model sees it: the observation is the prediction, read-only modes change nothing
 Invoke(mode) ==
